@@ -32,7 +32,7 @@ NCPU = os.cpu_count() or 4
 
 FORBIDDEN = re.compile(
     r"\b(Admitted|admit|Axiom|Axioms|Parameter|Parameters|Conjecture|Conjectures|"
-    r"Admit\s+Obligations|Unset\s+Guard\s+Checking|Unset\s+Positivity\s+Checking|"
+    r"Primitive|Admit\s+Obligations|Unset\s+Guard\s+Checking|Unset\s+Positivity\s+Checking|"
     r"Unset\s+Universe\s+Checking|bypass_check|type-in-type|impredicative-set|"
     r"native_compute|Extract\s+Constant|Extract\s+Inductive)\b")
 
